@@ -61,27 +61,19 @@ Section C09.
     ids (filter_response az r) = map it_id (filter it_readable (items az r)).
   Proof. exact (switch_complete az). Qed.
 
-  (* the flag afterwards, for every response type that has one *)
+  (* the flag afterwards, for every response type that has one: set exactly when this run removed
+     an element whose removal is reported — whatever the flag was on entry (a blocking query
+     re-runs its function on the same reply; since a96cac5 every branch assigns the flag) *)
   Theorem C09_flag : forall r, wf r ->
     match flag_of (filter_response az r) with
-    | Some f' => f' = (sticky_type r && flag0 r) || existsb bad_item (items az r)
+    | Some f' => f' = existsb bad_item (items az r)
     | None => flag_of r = None
     end.
   Proof. exact (switch_flag az). Qed.
 
-  (* starting from a clear flag: set exactly when a reportable element was removed *)
-  Theorem C09_flag_iff : forall r f', wf r -> flag0 r = false -> flag_of (filter_response az r) = Some f' ->
+  Theorem C09_flag_iff : forall r f', wf r -> flag_of (filter_response az r) = Some f' ->
     (f' = true <-> exists it, In it (items az r) /\ it_readable it = false /\ it_flagged it = true).
   Proof. exact (switch_flag_iff az). Qed.
-
-  (* ... and for every branch except the four that never clear the flag (IndexedNodeDump,
-     IndexedServiceTopology, IndexedExportedServiceList, IndexedNodesWithGateways) whatever the
-     flag was on entry.  For those four the hypothesis [flag0 r = false] of [C09_flag_iff] means
-     "the reply has not been through the filter before"; see [C09_flag_stale_refuted]. *)
-  Theorem C09_flag_iff_nonsticky : forall r f', wf r -> sticky_type r = false ->
-    flag_of (filter_response az r) = Some f' ->
-    (f' = true <-> exists it, In it (items az r) /\ it_readable it = false /\ it_flagged it = true).
-  Proof. exact (flag_iff_nonsticky az). Qed.
 
   (* ---------- the filters' predicates against ONE independent rule of readability ----------
      rule: the node under the element's own peer context, and every service the element names
@@ -104,8 +96,12 @@ Section C09.
   Theorem C09_rule_service_name_partial : forall s,
     str_empty (sv_name s) = false -> readable_svcname az s = ideal_svcname az s.
   Proof. exact (svcname_ideal_partial az). Qed.
-  (* deviation gateway-unchecked: holds when every gateway named is readable (what
-     Catalog.GatewayServices guarantees before it filters; Internal.ServiceDump does not) *)
+  (* gateway mappings of a service dump (all gateways): both names, as the rule says *)
+  Theorem C09_rule_gateway_mapping : forall g,
+    str_empty (gs_service g) = false -> readable_gwmapping az g = ideal_gwsvc az g.
+  Proof. exact (gwmapping_is_ideal az). Qed.
+  (* deviation gateway-unchecked (IndexedGatewayServices only): holds when every gateway named is
+     readable, which Catalog.GatewayServices establishes before it filters *)
   Theorem C09_rule_gateway_partial : forall l,
     forallb (fun g => may_service az EmptyString (gs_gateway g) && negb (str_empty (gs_service g))) l = true ->
     filter_gateway_services az l = (filter (ideal_gwsvc az) l, removed (ideal_gwsvc az) l).
@@ -172,19 +168,10 @@ End C09.
 
 (* ---------- named deviations from the rule: witnesses ---------- *)
 
-(* OPEN FINDING stale-flag: a reply that went through one of the four never-clearing branches
-   before keeps its flag although this run removed nothing *)
-Theorem C09_flag_stale_refuted :
-  exists az r, sticky_type r = true /\ flag0 r = true
-  /\ (forall it, In it (items az r) -> it_readable it = true)
-  /\ flag_of (filter_response az r) = Some true.
-Proof. exact flag_stale_refuted. Qed.
-
-(* OPEN FINDING gateway-name-returned: Internal.ServiceDump's gateway mappings are filtered by the
-   linked service only; a mapping whose gateway may not be read is returned, nothing flagged *)
+(* by contract: IndexedGatewayServices trusts its endpoint to have authorized the gateway *)
 Theorem C09_gateway_unchecked_refuted :
   exists az g, readable_gwsvc az g = true /\ ideal_gwsvc az g = false
-  /\ filter_response az (RIndexedNodesWithGateways [] [] [g] false) = RIndexedNodesWithGateways [] [] [g] false.
+  /\ filter_response az (RIndexedGatewayServices [g] false) = RIndexedGatewayServices [g] false.
 Proof. exact gateway_unchecked_refuted. Qed.
 
 Theorem C09_empty_service_name_refuted : exists az c, readable_csn az c = false /\ ideal_csn az c = true.
@@ -402,7 +389,7 @@ Print Assumptions C09_example_exported.
 Print Assumptions C09_example_any_order.
 Print Assumptions C09_example_node_dump.
 Print Assumptions C09_example_expired.
-Print Assumptions C09_flag_iff_nonsticky.
+Print Assumptions C09_rule_gateway_mapping.
 Print Assumptions C09_rule_check.
 Print Assumptions C09_rule_service_node.
 Print Assumptions C09_rule_node_service.
@@ -413,7 +400,6 @@ Print Assumptions C09_rule_service_name_partial.
 Print Assumptions C09_rule_gateway_partial.
 Print Assumptions C09_rule_service_list_partial.
 Print Assumptions C09_rule_txn_partial.
-Print Assumptions C09_flag_stale_refuted.
 Print Assumptions C09_gateway_unchecked_refuted.
 Print Assumptions C09_empty_service_name_refuted.
 Print Assumptions C09_service_list_node_context_refuted.
